@@ -662,8 +662,23 @@ func TestCloseDuringStartup(t *testing.T) {
 		}
 		ctl := lib.Install()
 		defer ctl.Uninstall()
+		var allSubs []*lib.ScriptSub
 		add := func(i int) {
-			router.AddNoPublisherHandler(fmt.Sprintf("h%d", i), "t", lib.NewScriptSub(""), func(*message.Message) error { return nil })
+			ss := lib.NewScriptSub("")
+			allSubs = append(allSubs, ss)
+			router.AddNoPublisherHandler(fmt.Sprintf("h%d", i), "t", ss, func(*message.Message) error { return nil })
+		}
+		// "Running() is closed only after every registered handler holds its subscription", whatever else goes on
+		runningImpliesSubscribed := func(when string) {
+			select {
+			case <-router.Running():
+				for k, ss := range allSubs {
+					if len(ss.Subs()) == 0 {
+						t.Fatalf("violation: Running() is closed (%s) although handler #%d of %d has not subscribed yet", when, k, len(allSubs))
+					}
+				}
+			default:
+			}
 		}
 		var park *lib.Parked
 		runRet := make(chan error, 1)
@@ -691,6 +706,10 @@ func TestCloseDuringStartup(t *testing.T) {
 		closed := make(chan error, 1)
 		go func() { closed <- router.Close() }()
 		time.Sleep(time.Duration(rapid.IntRange(0, 3).Draw(t, "releaseDelayMs")) * time.Millisecond)
+		if achieved && !late {
+			// the starter is parked between two handlers and Close has been called
+			runningImpliesSubscribed("Close() called while Run is still starting handlers")
+		}
 		park.Release()
 		select {
 		case <-closed:
@@ -716,15 +735,43 @@ func TestStartupInterference(t *testing.T) {
 	rapid.Check(t, func(t *rapid.T) {
 		n := rapid.IntRange(1, 4).Draw(t, "handlers")
 		skip := rapid.IntRange(0, n-1).Draw(t, "afterStarts")
-		action := rapid.SampledFrom([]string{"cancel-before-run", "cancel-during-startup", "second-run-during-startup"}).Draw(t, "action")
-		router, err := message.NewRouter(message.RouterConfig{CloseTimeout: 5 * time.Second}, watermill.NopLogger{})
+		action := rapid.SampledFrom([]string{"cancel-before-run", "cancel-during-startup", "second-run-during-startup", "close-before-run"}).Draw(t, "action")
+		closeTimeout := 5 * time.Second
+		if action == "close-before-run" {
+			closeTimeout = 50 * time.Millisecond // Close of a never-run router with handlers runs into its timeout on the unchanged tree
+		}
+		router, err := message.NewRouter(message.RouterConfig{CloseTimeout: closeTimeout}, watermill.NopLogger{})
 		if err != nil {
 			t.Fatalf("NewRouter: %v", err)
 		}
 		ctl := lib.Install()
 		defer ctl.Uninstall()
+		var allSubs []*lib.ScriptSub
 		for i := 0; i < n; i++ {
-			router.AddNoPublisherHandler(fmt.Sprintf("h%d", i), "t", lib.NewScriptSub(""), func(*message.Message) error { return nil })
+			ss := lib.NewScriptSub("")
+			allSubs = append(allSubs, ss)
+			router.AddNoPublisherHandler(fmt.Sprintf("h%d", i), "t", ss, func(*message.Message) error { return nil })
+		}
+		if action == "close-before-run" {
+			// a router that is closed before it was run: Running() must not claim that the handlers are subscribed
+			closeRet := make(chan struct{})
+			go func() { router.Close(); close(closeRet) }()
+			select {
+			case <-closeRet:
+			case <-time.After(5*time.Second + lib.Live):
+				t.Fatalf("violation: Close() of a router that was never run did not return")
+			}
+			select {
+			case <-router.Running():
+				for k, ss := range allSubs {
+					if len(ss.Subs()) == 0 {
+						t.Fatalf("violation: Running() is closed after Close() of a router that was never run, handler #%d never subscribed", k)
+					}
+				}
+			default:
+			}
+			lib.Case(fmt.Sprintf("startup|%s|%d", action, n), true, "startup-interference", action)
+			return
 		}
 		ctx, cancel := context.WithCancel(context.Background())
 		defer cancel()
